@@ -386,6 +386,9 @@ func (t *WeightedMerkleTrie) Commit(collapseLevel int) (storage.Batcher, error) 
 		close(deleteChan)
 		close(createdChan)
 		wg.Wait()
+		// a node that was dropped earlier and is created again by this commit is live:
+		// it must not stay queued for deletion by the next garbage collection passes
+		t.tempDeleted = withoutHashes(t.tempDeleted, t.created)
 	}()
 	t.collectDeleteAndCreated(deleteChan, createdChan, wg)
 	if ok {
@@ -492,16 +495,16 @@ func (t *WeightedMerkleTrie) commit(node Node, batcher storage.Batcher, collapse
 		if err != nil {
 			return nil, err
 		}
+		createdChan <- n.Hash()
+		if !bytes.Equal(prevHash, n.Hash()) {
+			deleteChan <- prevHash
+		}
 		if level == collapseLevel {
 			n.Children = [16]Node{}
 			return &hashNode{
 				hash:   n.Hash(),
 				weight: n.Weight(),
 			}, nil
-		}
-		createdChan <- n.Hash()
-		if !bytes.Equal(prevHash, n.Hash()) {
-			deleteChan <- prevHash
 		}
 		return n, nil
 	case *shortNode:
@@ -543,6 +546,24 @@ func (t *WeightedMerkleTrie) commit(node Node, batcher storage.Batcher, collapse
 	}
 
 	return node, nil
+}
+
+// withoutHashes returns the hashes of list that are not in drop
+func withoutHashes(list, drop [][]byte) [][]byte {
+	if len(list) == 0 || len(drop) == 0 {
+		return list
+	}
+	dropped := make(map[string]struct{}, len(drop))
+	for _, h := range drop {
+		dropped[string(h)] = struct{}{}
+	}
+	kept := list[:0]
+	for _, h := range list {
+		if _, ok := dropped[string(h)]; !ok {
+			kept = append(kept, h)
+		}
+	}
+	return kept
 }
 
 func commonPrefix(a, b []byte) int {
